@@ -259,3 +259,24 @@ func (u *Unreliable) VerifQueuedMsgs() int { return len(u.recv.C) }
 
 // VerifState returns the tube state number.
 func (u *Unreliable) VerifState() int { return int(u.state.Load().(state)) }
+
+// VerifRecvWindowStart is the number of the next frame the tube's receive window expects.
+func (r *Reliable) VerifRecvWindowStart() uint64 {
+	r.recvWindow.m.Lock()
+	defer r.recvWindow.m.Unlock()
+	return r.recvWindow.windowStart
+}
+
+// VerifSenderFrameNo is the number the tube's sender will give to its next frame.
+func (r *Reliable) VerifSenderFrameNo() uint32 {
+	r.l.Lock()
+	defer r.l.Unlock()
+	return r.sender.frameNo
+}
+
+// VerifUnackedFrames is the length of the tube's retransmission buffer.
+func (r *Reliable) VerifUnackedFrames() int {
+	r.l.Lock()
+	defer r.l.Unlock()
+	return r.sender.unAckedFramesRemaining()
+}
